@@ -192,6 +192,11 @@ def run(repo, rep, tier):
     rep.check(okm, "R07.4", "chameleon.compiler.RE_MANGLE", "the mangling "
               "pattern replaces exactly the characters that are not word "
               "characters", construct="mangle-class", detail=rm.pattern)
+    # HTML boolean defaults depend on the document type, which for a
+    # document announced by a meta element is read from the match (C17)
+    from . import c17 as _c17
+    L.borrow(repo, rep, "R07.5", "C17", _c17._meta_group_roles,
+             ("meta-group-roles",))
     L.state_rule(repo, rep)
 
 
